@@ -250,6 +250,15 @@ def run(check, repo: Repo) -> None:
     dc = [c for c in calls_in(clone) if call_name(c) == "copy.deepcopy"]
     check.decide(len(dc) == 1 and unparse(dc[0].args[0]) == "self", "C05-R6", "clone: first attempt is a deep copy of the whole object", "", tmod.line(clone),
                  fail_detail="clone does not deepcopy(self)")
+    # the copy starts from an empty memo: whatever a pre-seeded memo maps (id(x) → x) is SHARED by the clone — a sub-model carrying learned state (the dataset
+    # model's scan positions / descan shifts and their optimizer) then evolves under both reconstructions at once
+    for c_ in dc:
+        memo_ = c_.args[1] if len(c_.args) > 1 else kwarg(c_, "memo")
+        seeded_ = memo_ is not None and not (isinstance(memo_, ast.Dict) and not memo_.keys) and not (isinstance(memo_, ast.Call) and call_name(memo_) == "dict" and not memo_.args and not memo_.keywords)
+        shared_ = sorted({unparse(v_)[:40] for v_ in (memo_.values if isinstance(memo_, ast.Dict) else [])}) if seeded_ else []
+        check.decide(not seeded_, "C05-R6", "clone: the deep copy starts from an empty memo (no sub-object is shared with the original)", "", tmod.line(c_), definite=True,
+                     fail_detail=f"`{unparse(c_)[:70]}` pre-seeds the memo: {shared_ or 'the mapped objects'} are the SAME objects in the clone and in the original, so continuing one run "
+                                 f"advances learned state (positions, optimizer moments) of the other — the clone no longer continues like the uninterrupted run")
     sv = [c for c in calls_in(clone) if (call_name(c) or "") == "self.save"]
     ld = [c for c in calls_in(clone) if (call_name(c) or "").endswith("from_file")]
     ok = len(sv) == 1 and is_const(kwarg(sv[0], "save_raw_data"), True) and len(ld) == 1
